@@ -1,10 +1,180 @@
 /-
-Helper lemmas for Props/C12.lean: the collection loops are filters, `lookup` through every database operation,
-the refinement relation between the implementation machine (Store.lean) and the reference map (Spec.lean).
+Helper lemmas for Props/C12.lean.
+ A. `agree_*`: the rules the reference machine (Spec.lean) states on its own - clock conversion, lapse test, known
+    ITS-AIDs / types, provider / consumer registration, validation ladder, data object type, unfiltered answer,
+    type-consistency test of update - agree with what the implementation model (Store.lean, Filter.lean, Record.lean)
+    and the constants regenerated from the repository (Generated/Ldm.lean) use.
+ B. the collection loops are filters; `lookup` through every database operation; the refinement relation `Rel` between
+    the implementation machine and the reference map; `step_refines` / `run_refines` WITHOUT side conditions: the
+    reference machine takes the area rule, the gating and the reactive trigger as parameters (`specOf cfg`).
+ C. facts about the reference machine for all parameters: invariant, monotone clocks and counter, `run_follows`
+    (what a history does to one stored object, judged by the answers), `none_stays`, `id_out`.
 -/
 import FlexModel.Ldm.Spec
+import FlexModel.Ldm.Store
 namespace FlexModel.Ldm
 open Generated.Ldm
+
+/-! ## the reference machine's own rules agree with the implementation model's (and the regenerated constants) -/
+
+theorem agree_nowIts (u : Int) : Spec.nowIts u = nowIts u := rfl
+
+theorem agree_lapsed (now : Int) (r : Record) : Spec.lapsed now r = expired now r := by
+  unfold Spec.lapsed expired
+  by_cases h : r.timestamp + 1000 * r.validity < now
+  · have h' : r.validity * 1000 + r.timestamp < now := by omega
+    simp [h, h']
+  · have h' : ¬ (r.validity * 1000 + r.timestamp < now) := by omega
+    simp [h, h']
+
+theorem agree_known_aid (a : Nat) : Spec.known a = validItsAid.contains a := by
+  by_cases h : a ≤ 21
+  · have : a = 0 ∨ a = 1 ∨ a = 2 ∨ a = 3 ∨ a = 4 ∨ a = 5 ∨ a = 6 ∨ a = 7 ∨ a = 8 ∨ a = 9 ∨ a = 10 ∨ a = 11 ∨ a = 12 ∨
+        a = 13 ∨ a = 14 ∨ a = 15 ∨ a = 16 ∨ a = 17 ∨ a = 18 ∨ a = 19 ∨ a = 20 ∨ a = 21 := by omega
+    rcases this with h | h | h | h | h | h | h | h | h | h | h | h | h | h | h | h | h | h | h | h | h | h <;> subst h <;> decide
+  · have h1 : Spec.known a = false := by simp [Spec.known]; omega
+    rw [h1]
+    symm
+    simp only [validItsAid, List.contains_eq_mem, List.mem_cons, List.not_mem_nil, or_false, decide_eq_false_iff_not]
+    omega
+
+theorem agree_typeNames : Spec.typeNames = typeTable := by decide
+
+theorem agree_validType (t : Nat) : Spec.known t = validType t := by
+  by_cases h : t ≤ 21
+  · have : t = 0 ∨ t = 1 ∨ t = 2 ∨ t = 3 ∨ t = 4 ∨ t = 5 ∨ t = 6 ∨ t = 7 ∨ t = 8 ∨ t = 9 ∨ t = 10 ∨ t = 11 ∨ t = 12 ∨
+        t = 13 ∨ t = 14 ∨ t = 15 ∨ t = 16 ∨ t = 17 ∨ t = 18 ∨ t = 19 ∨ t = 20 ∨ t = 21 := by omega
+    rcases this with h | h | h | h | h | h | h | h | h | h | h | h | h | h | h | h | h | h | h | h | h | h <;> subst h <;> decide
+  · have h1 : Spec.known t = false := by simp [Spec.known]; omega
+    rw [h1]
+    symm
+    simp only [validType, typeTable, List.any_cons, List.any_nil, Bool.or_false, Bool.or_eq_false_iff, beq_eq_false_iff_ne]
+    omega
+
+theorem agree_typeOfKey (k : String) : Spec.typeOfKey k = typeIdOfName k := by
+  unfold Spec.typeOfKey typeIdOfName
+  rw [agree_typeNames]
+
+theorem agree_firstType (ks : List String) : Spec.firstType ks = firstTypeKey ks := by
+  induction ks with
+  | nil => rfl
+  | cons k ks ih =>
+    simp only [Spec.firstType, firstTypeKey, agree_typeOfKey, ih]
+    cases typeIdOfName k <;> rfl
+
+theorem agree_typeOf (o : JVal) : Spec.typeOf o = objType o := by
+  cases o <;> simp [Spec.typeOf, objType, agree_firstType]
+
+theorem agree_wanted (types : List Nat) (r : Record) : Spec.wanted types r = typeSelected types r := by
+  simp only [Spec.wanted, typeSelected, agree_typeOf]
+  cases objType r.obj <;> rfl
+
+theorem agree_providerOk (app : Nat) (perms : List Nat) : Spec.providerOk app perms = providerOk app perms := by
+  unfold Spec.providerOk providerOk
+  rw [agree_known_aid]
+  rfl
+
+theorem agree_consumerOk (app : Nat) (perms : List Nat) : Spec.consumerOk app perms = consumerOk app perms := by
+  unfold Spec.consumerOk consumerOk
+  rw [agree_known_aid]
+  rfl
+
+theorem agree_refusal (b : Bool) (q : Request) : Spec.refusal b q = requestRefusal b q := by
+  unfold Spec.refusal requestRefusal
+  have h1 : (!(q.types.all Spec.known)) = q.types.any (fun t => !validType t) := by
+    induction q.types with
+    | nil => rfl
+    | cons t ts ih =>
+      simp only [List.all_cons, List.any_cons, Bool.not_and, agree_validType] at ih ⊢
+      rw [ih]
+  rw [h1]
+  generalize q.prio = x
+  cases x with
+  | none => rfl
+  | some p =>
+    have h2 : decide (p < 0 ∨ 255 < p) = (decide (p < 0) || decide (p > 255)) := by simp
+    simp only [h2]
+
+theorem agree_answer (rows : List Record) (q : Request) :
+    Spec.answer rows q = (match serviceQuery rows q with | .ok rs => ReqOut.ok rs | .error e => ReqOut.exc e) := by
+  unfold Spec.answer
+  cases hf : q.filter with
+  | some f => rfl
+  | none =>
+    cases ho : q.order with
+    | some o => rfl
+    | none =>
+      have : rows.filter (Spec.wanted q.types) = typeSelect q.types rows := by
+        unfold typeSelect
+        congr 1
+        funext r
+        exact agree_wanted _ _
+      simp only [serviceQuery, dictSearch, hf, ho, this]
+      rfl
+
+/-- the type-consistency test of update: the code compares type *names*, the reference type *ids* -/
+theorem typeName_empty : typeIdOfName "" = none := by decide
+
+theorem objType_of_name_keys (ks : List String) :
+    firstTypeKey ks = typeIdOfName ((ks.find? (fun k => (typeIdOfName k).isSome)).getD "") := by
+  induction ks with
+  | nil => simp [firstTypeKey, typeName_empty]
+  | cons k ks ih =>
+    simp only [firstTypeKey, List.find?_cons]
+    cases h : typeIdOfName k with
+    | some t => simp [h]
+    | none => simp [ih]
+
+theorem objType_of_name (o : JVal) : objType o = typeIdOfName (objTypeName o) := by
+  cases o <;> simp [objType, objTypeName, typeName_empty, objType_of_name_keys]
+
+theorem name_empty_or_type_keys (ks : List String) :
+    (ks.find? (fun k => (typeIdOfName k).isSome)).getD "" = "" ∨
+    (typeIdOfName ((ks.find? (fun k => (typeIdOfName k).isSome)).getD "")).isSome = true := by
+  cases h : ks.find? (fun k => (typeIdOfName k).isSome) with
+  | none => left; rfl
+  | some k => right; simpa using List.find?_some h
+
+theorem name_empty_or_type (o : JVal) : objTypeName o = "" ∨ (typeIdOfName (objTypeName o)).isSome = true := by
+  cases o <;> simp [objTypeName, name_empty_or_type_keys]
+
+def nameOfType (t : Nat) : Option String := (typeTable.find? (fun p => p.1 == t)).map (·.2)
+
+theorem table_ids_distinct : ∀ p ∈ typeTable, nameOfType p.1 = some p.2 := by decide
+
+theorem name_of_typeId (a : String) (t : Nat) (h : typeIdOfName a = some t) : nameOfType t = some a := by
+  unfold typeIdOfName at h
+  cases hf : typeTable.find? (fun p => p.2 == a) with
+  | none => simp [hf] at h
+  | some p =>
+    simp only [hf, Option.map_some, Option.some.injEq] at h
+    have hm := List.mem_of_find?_eq_some hf
+    have hp := List.find?_some hf
+    simp only [beq_iff_eq] at hp
+    have := table_ids_distinct p hm
+    rw [h, hp] at this
+    exact this
+
+theorem agree_typeCheck (a b : JVal) : (objTypeName a = objTypeName b) ↔ (Spec.typeOf a = Spec.typeOf b) := by
+  rw [agree_typeOf, agree_typeOf, objType_of_name, objType_of_name]
+  constructor
+  · intro h; rw [h]
+  · intro h
+    cases ha : typeIdOfName (objTypeName a) with
+    | none =>
+      rw [ha] at h
+      rcases name_empty_or_type a with h1 | h1
+      · rcases name_empty_or_type b with h2 | h2
+        · rw [h1, h2]
+        · rw [← h] at h2; cases h2
+      · rw [ha] at h1; cases h1
+    | some t =>
+      rw [ha] at h
+      have h1 := name_of_typeId _ _ ha
+      have h2 := name_of_typeId _ _ h.symm
+      rw [h1] at h2
+      exact Option.some.inj h2
+
 
 abbrev Rows := List (Nat × Record)
 def ids (rows : Rows) : List Nat := rows.map (·.1)
@@ -172,7 +342,7 @@ theorem removeId_eq_filter (rows : Rows) (i : Nat) (h : (ids rows).Pairwise (· 
       symm
       apply List.filter_eq_self.mpr
       intro q hq
-      have : k < q.1 := h.1 q.1 (by simp only [ids, List.mem_map]; exact ⟨q, hq, rfl⟩)
+      have : k < q.1 := h.1 q.1 (by simp only [List.mem_map]; exact ⟨q, hq, rfl⟩)
       simp; omega
     · simp only [hk, if_false, List.filter]
       have : ((k, y).1 != i) = true := by simp [hk]
@@ -288,19 +458,51 @@ theorem idsOk_append (n : Nat) (rows : Rows) (r : Record) (h : IdsOk n rows) : I
 theorem idsOk_mono (n m : Nat) (rows : Rows) (h : IdsOk n rows) (hnm : n ≤ m) : IdsOk m rows :=
   ⟨h.1, fun i hi => Nat.lt_of_lt_of_le (h.2 i hi) hnm⟩
 
-/-- on a store whose objects all lie where the area collection keeps them, `collect_trash` removes exactly the expired -/
-theorem collectTrash_eq (cfg : Cfg) (now : Int) (rows : Rows)
-    (hs : ∀ p ∈ rows, areaDeletes cfg.areaFixed cfg.area p.2.loc = false) :
-    collectTrash cfg now rows = rows.filter (fun p => !expired now p.2) := by
-  unfold collectTrash
-  rw [gcTime_eq, gcArea_eq]
-  apply List.filter_eq_self.mpr
-  intro p hp
-  have := hs p (List.mem_filter.mp hp).1
-  simp [this]
 
-/-- refinement relation: the reference map is the row list read as a function, same counters and clocks -/
-structure Rel (cfg : Cfg) (s : St) (t : Spec.St) : Prop where
+/-- `collect_trash` (time-validity loop, then area loop, each with removal by value) removes exactly the rows that are
+expired or that the area test condemns -/
+theorem collectTrash_eq (cfg : Cfg) (now : Int) (rows : Rows) :
+    collectTrash cfg now rows
+      = rows.filter (fun p => !(expired now p.2 || areaDeletes cfg.areaFixed cfg.area p.2.loc)) := by
+  unfold collectTrash
+  rw [gcTime_eq, gcArea_eq, List.filter_filter]
+  congr 1
+  funext p
+  cases expired now p.2 <;> cases areaDeletes cfg.areaFixed cfg.area p.2.loc <;> rfl
+
+/-! ## the refinement -/
+
+/-- the history vocabulary of the implementation model read in the reference vocabulary -/
+def toSpec : Op → Spec.Op
+  | .regProvider a p => .regProvider a p
+  | .deregProvider a => .deregProvider a
+  | .regConsumer a p => .regConsumer a p
+  | .deregConsumer a => .deregConsumer a
+  | .add a ts l o v => .add a ts l o v
+  | .update a i o => .update a i o
+  | .delete a i => .delete a i
+  | .request q => .request q
+  | .maintain => .maintain
+  | .advance ms => .advance ms
+
+/-- the parameters of the reference machine that a variant of the code implements: ITS AREA RULE IS WHAT THE CODE
+DOES (for `areaFixed = false` the inverted test of C12-KF1), its gating what the code does (C12-KF2), the reactive
+trigger the documented one of LDMMaintenanceReactive -/
+def specOf (cfg : Cfg) : Spec.Params :=
+  { drops := areaDeletes cfg.areaFixed cfg.area, gated := cfg.gated, reactive := fun d => decide (d ≥ trashIntervalMs) }
+
+/-- how an interface answer of the implementation reads in the reference vocabulary (result codes kept) -/
+def absOut : Op → Out → Spec.Out
+  | .add .., .code n => if n < 0 then .refused n.natAbs else .id n.toNat
+  | .request _, .req r => .req r
+  | .maintain, _ => .none
+  | .advance _, _ => .none
+  | _, .code n => if n = 0 then .done else .refused n.natAbs
+  | _, _ => .none
+
+/-- refinement relation: the reference map is the row list read as a function, same counters, registries as
+predicates, same clocks -/
+structure Rel (s : St) (t : Spec.St) : Prop where
   objs : ∀ i, t.objs i = lookup i s.db.rows
   next : t.next = s.db.next
   prov : ∀ a, t.prov a = s.providers.contains a
@@ -309,21 +511,11 @@ structure Rel (cfg : Cfg) (s : St) (t : Spec.St) : Prop where
   mono : t.monoMs = s.monoMs
   gc : t.lastGc = s.lastGc
   idsOk : IdsOk s.db.next s.db.rows
-  safe : ∀ p ∈ s.db.rows, areaDeletes cfg.areaFixed cfg.area p.2.loc = false
 
-/-- side conditions under which the code as it is (or a repaired variant) follows the reference:
-objects are added where the area collection keeps them; update/delete come from registered providers unless the
-variant checks that itself -/
-def opSafe (cfg : Cfg) (s : St) : Op → Bool
-  | .add _ _ loc _ _ => !areaDeletes cfg.areaFixed cfg.area loc
-  | .update app _ _ => cfg.gated || s.providers.contains app
-  | .delete app _ => cfg.gated || s.providers.contains app
-  | _ => true
-
-theorem rel_init (cfg : Cfg) (u m : Int) : Rel cfg (St.init u m) (Spec.St.init u m) := by
+theorem rel_init (u m : Int) : Rel (St.init u m) (Spec.St.init u m) := by
   constructor <;> simp [St.init, Spec.St.init, lookup, IdsOk, ids]
 
-theorem listing_eq (cfg : Cfg) (s : St) (t : Spec.St) (h : Rel cfg s t) : Spec.listing t = s.db.rows.map (·.2) := by
+theorem listing_eq (s : St) (t : Spec.St) (h : Rel s t) : Spec.listing t = s.db.rows.map (·.2) := by
   unfold Spec.listing
   rw [h.next]
   have : t.objs = fun i => lookup i s.db.rows := funext h.objs
@@ -333,85 +525,71 @@ theorem listing_eq (cfg : Cfg) (s : St) (t : Spec.St) (h : Rel cfg s t) : Spec.l
 theorem next_not_mem (n : Nat) (rows : Rows) (h : IdsOk n rows) : n ∉ ids rows :=
   fun hm => Nat.lt_irrefl _ (h.2 n hm)
 
-theorem mem_replaceId (rows : Rows) (i : Nat) (x : Record) (p : Nat × Record) (h : p ∈ replaceId rows i x) :
-    p ∈ rows ∨ p = (i, x) := by
-  induction rows with
-  | nil => simp [replaceId] at h
-  | cons q t ih =>
-    obtain ⟨k, y⟩ := q
-    simp only [replaceId] at h
-    split at h
-    · next e =>
-      subst e
-      rcases List.mem_cons.mp h with h1 | h1
-      · exact Or.inr h1
-      · exact Or.inl (List.mem_cons_of_mem _ h1)
-    · rcases List.mem_cons.mp h with h1 | h1
-      · exact Or.inl (by rw [h1]; simp)
-      · rcases ih h1 with h2 | h2
-        · exact Or.inl (List.mem_cons_of_mem _ h2)
-        · exact Or.inr h2
+/-- a maintenance pass of the implementation on related stores -/
+theorem collect_rel (cfg : Cfg) (now : Int) (rows : Rows) (n : Nat) (objs : Nat → Option Record)
+    (hok : IdsOk n rows) (ho : ∀ i, objs i = lookup i rows) (i : Nat) :
+    Spec.collect (specOf cfg) now objs i = lookup i (collectTrash cfg now rows) := by
+  rw [collectTrash_eq, lookup_filter _ _ hok.1, Spec.collect, ho i]
+  cases lookup i rows with
+  | none => rfl
+  | some r =>
+    simp only [specOf, agree_lapsed]
+    cases expired now r <;> cases areaDeletes cfg.areaFixed cfg.area r.loc <;> rfl
 
-theorem step_refines (cfg : Cfg) (s : St) (t : Spec.St) (op : Op) (h : Rel cfg s t) (hs : opSafe cfg s op = true) :
-    Rel cfg (step cfg s op).1 (Spec.step t op).1 ∧ Spec.absOut op (step cfg s op).2 = (Spec.step t op).2 := by
+/-- **one step**: for EVERY operation (no side condition) the implementation step and the reference step with the
+parameters `specOf cfg` stay related and answer alike -/
+theorem step_refines (cfg : Cfg) (s : St) (t : Spec.St) (op : Op) (h : Rel s t) :
+    Rel (step cfg s op).1 (Spec.step (specOf cfg) t (toSpec op)).1
+      ∧ absOut op (step cfg s op).2 = (Spec.step (specOf cfg) t (toSpec op)).2 := by
   cases op with
   | regProvider app perms =>
-    simp only [step, Spec.step]
+    simp only [step, Spec.step, toSpec, agree_providerOk]
     split
-    · refine ⟨{ h with prov := ?_ }, by simp [Spec.absOut]⟩
+    · refine ⟨{ h with prov := ?_ }, by simp [absOut]⟩
       intro a
       simp only [Spec.setAt, contains_setAdd]
       by_cases e : a = app <;> simp [e, h.prov]
-    · exact ⟨h, by simp [Spec.absOut]⟩
+    · exact ⟨h, by simp [absOut]⟩
   | deregProvider app =>
-    simp only [step, Spec.step, h.prov app]
+    simp only [step, Spec.step, toSpec, h.prov app]
     split
-    · refine ⟨{ h with prov := ?_ }, by simp [Spec.absOut]⟩
+    · refine ⟨{ h with prov := ?_ }, by simp [absOut]⟩
       intro a
       simp only [Spec.setAt, contains_setDiscard]
       by_cases e : a = app <;> simp [e, h.prov]
-    · exact ⟨h, by simp [Spec.absOut]⟩
+    · exact ⟨h, by simp [absOut]⟩
   | regConsumer app perms =>
-    simp only [step, Spec.step]
+    simp only [step, Spec.step, toSpec, agree_consumerOk]
     split
-    · refine ⟨{ h with cons := ?_ }, by simp [Spec.absOut]⟩
+    · refine ⟨{ h with cons := ?_ }, by simp [absOut]⟩
       intro a
       simp only [Spec.setAt, contains_setAdd]
       by_cases e : a = app <;> simp [e, h.cons]
-    · exact ⟨h, by simp [Spec.absOut]⟩
+    · exact ⟨h, by simp [absOut]⟩
   | deregConsumer app =>
-    simp only [step, Spec.step, h.cons app]
+    simp only [step, Spec.step, toSpec, h.cons app]
     split
-    · refine ⟨{ h with cons := ?_ }, by simp [Spec.absOut]⟩
+    · refine ⟨{ h with cons := ?_ }, by simp [absOut]⟩
       intro a
       simp only [Spec.setAt, contains_setDiscard]
       by_cases e : a = app <;> simp [e, h.cons]
-    · exact ⟨h, by simp [Spec.absOut]⟩
+    · exact ⟨h, by simp [absOut]⟩
   | advance ms =>
-    simp only [step, Spec.step]
-    exact ⟨{ h with utc := by simp [h.utc], mono := by simp [h.mono] }, by simp [Spec.absOut]⟩
+    simp only [step, Spec.step, toSpec]
+    exact ⟨{ h with utc := by simp [h.utc], mono := by simp [h.mono] }, by simp [absOut]⟩
   | request q =>
-    simp only [step, Spec.step, if4Request, h.cons q.app, listing_eq cfg s t h]
+    simp only [step, Spec.step, toSpec, if4Request, h.cons q.app, listing_eq s t h, agree_refusal, agree_answer]
     refine ⟨h, ?_⟩
-    simp only [Spec.absOut]
-    generalize requestRefusal _ q = x
-    cases x with
-    | some c => rfl
-    | none =>
-      simp only
-      generalize serviceQuery _ q = y
-      cases y <;> rfl
+    simp only [absOut]
+    congr 1
   | maintain =>
-    simp only [step, Spec.step]
-    have hc := collectTrash_eq cfg (nowIts s.utcMs) s.db.rows h.safe
-    refine ⟨?_, by simp [Spec.absOut]⟩
+    simp only [step, Spec.step, toSpec]
+    refine ⟨?_, by simp [absOut]⟩
+    have hc := collectTrash_eq cfg (nowIts s.utcMs) s.db.rows
     constructor
     · intro i
-      simp only [hc, h.utc]
-      rw [lookup_filter _ _ h.idsOk.1, Spec.collect, h.objs i]
-      cases lookup i s.db.rows with
-      | none => rfl
-      | some r => by_cases e : expired (nowIts s.utcMs) r = true <;> simp [e]
+      simp only [h.utc, agree_nowIts]
+      exact collect_rel cfg _ _ _ _ h.idsOk h.objs i
     · exact h.next
     · exact h.prov
     · exact h.cons
@@ -419,16 +597,16 @@ theorem step_refines (cfg : Cfg) (s : St) (t : Spec.St) (op : Op) (h : Rel cfg s
     · exact h.mono
     · exact h.gc
     · simp only [hc]; exact idsOk_filter _ _ _ h.idsOk
-    · simp only [hc]; intro p hp; exact h.safe p (List.mem_filter.mp hp).1
   | delete app id =>
-    simp only [opSafe, Bool.or_eq_true] at hs
-    simp only [step, Spec.step, h.prov app, h.objs id]
-    by_cases hp : s.providers.contains app = true
-    · simp only [hp, Bool.not_true, Bool.and_false, Bool.false_eq_true, if_false]
+    simp only [step, Spec.step, toSpec, h.prov app, h.objs id, specOf]
+    by_cases hg : (cfg.gated && !s.providers.contains app) = true
+    · simp only [hg, if_true]
+      exact ⟨h, by simp [absOut]⟩
+    · simp only [hg, Bool.false_eq_true, if_false]
       cases hl : lookup id s.db.rows with
-      | none => exact ⟨h, by simp [Spec.absOut]⟩
+      | none => exact ⟨h, by simp [absOut]⟩
       | some r =>
-        refine ⟨?_, by simp [Spec.absOut]⟩
+        refine ⟨?_, by simp [absOut]⟩
         have hrm := removeId_eq_filter s.db.rows id h.idsOk.1
         constructor
         · intro i
@@ -444,22 +622,20 @@ theorem step_refines (cfg : Cfg) (s : St) (t : Spec.St) (op : Op) (h : Rel cfg s
         · exact h.mono
         · exact h.gc
         · simp only [hrm]; exact idsOk_filter _ _ _ h.idsOk
-        · simp only [hrm]; intro p hp'; exact h.safe p (List.mem_filter.mp hp').1
-    · have hg : cfg.gated = true := by rcases hs with h1 | h1 <;> simp_all
-      have hp' : s.providers.contains app = false := by simpa using hp
-      simp only [hg, hp', Bool.not_false, Bool.and_true, if_true]
-      exact ⟨h, by simp [Spec.absOut]⟩
   | update app id obj =>
-    simp only [opSafe, Bool.or_eq_true] at hs
-    simp only [step, Spec.step, h.prov app, h.objs id]
-    by_cases hp : s.providers.contains app = true
-    · simp only [hp, Bool.not_true, Bool.and_false, Bool.false_eq_true, if_false]
+    simp only [step, Spec.step, toSpec, h.prov app, h.objs id, specOf]
+    by_cases hg : (cfg.gated && !s.providers.contains app) = true
+    · simp only [hg, if_true]
+      exact ⟨h, by simp [absOut]⟩
+    · simp only [hg, Bool.false_eq_true, if_false]
       cases hl : lookup id s.db.rows with
-      | none => exact ⟨h, by simp [Spec.absOut]⟩
+      | none => exact ⟨h, by simp [absOut]⟩
       | some r =>
         simp only
-        split
-        · refine ⟨?_, by simp [Spec.absOut]⟩
+        by_cases hty : objTypeName r.obj = objTypeName obj
+        · have hty' := (agree_typeCheck _ _).mp hty
+          simp only [hty, hty', if_true]
+          refine ⟨?_, by simp [absOut]⟩
           constructor
           · intro i
             simp only [Spec.setAt, lookup_replaceId, hl, Option.map_some]
@@ -472,53 +648,36 @@ theorem step_refines (cfg : Cfg) (s : St) (t : Spec.St) (op : Op) (h : Rel cfg s
           · exact h.gc
           · show IdsOk _ (replaceId _ _ _)
             unfold IdsOk; rw [ids_replaceId]; exact h.idsOk
-          · intro p hp'
-            rcases mem_replaceId _ _ _ _ hp' with h1 | h1
-            · exact h.safe p h1
-            · rw [h1]; exact h.safe (id, r) (lookup_some_mem _ _ _ hl)
-        · exact ⟨h, by simp [Spec.absOut]⟩
-    · have hg : cfg.gated = true := by rcases hs with h1 | h1 <;> simp_all
-      have hp' : s.providers.contains app = false := by simpa using hp
-      simp only [hg, hp', Bool.not_false, Bool.and_true, if_true]
-      exact ⟨h, by simp [Spec.absOut]⟩
+        · have hty' : ¬ Spec.typeOf r.obj = Spec.typeOf obj := fun e => hty ((agree_typeCheck _ _).mpr e)
+          simp only [hty, hty', if_false]
+          exact ⟨h, by simp [absOut]⟩
   | add app ts loc obj validity =>
-    simp only [opSafe, Bool.not_eq_true'] at hs
-    simp only [step, Spec.step, h.prov app]
+    simp only [step, Spec.step, toSpec, h.prov app]
     by_cases hp : s.providers.contains app = true
-    · simp only [hp, Bool.not_true, Bool.false_eq_true, if_false, h.mono, h.gc, h.next, h.utc]
+    · simp only [hp, Bool.not_true, Bool.false_eq_true, if_false, h.mono, h.gc, h.next, h.utc, specOf,
+        decide_eq_true_eq]
       have hnm := next_not_mem _ _ h.idsOk
       have hok1 := idsOk_append s.db.next s.db.rows
         { appId := app, timestamp := ts, loc := loc, obj := obj, validity := validity } h.idsOk
-      have hsafe1 : ∀ p ∈ s.db.rows ++ [(s.db.next, ({ appId := app, timestamp := ts, loc := loc, obj := obj, validity := validity } : Record))],
-          areaDeletes cfg.areaFixed cfg.area p.2.loc = false := by
-        intro p hp'
-        rcases List.mem_append.mp hp' with h1 | h1
-        · exact h.safe p h1
-        · simp at h1; rw [h1]; exact hs
       have hobjs1 : ∀ i, Spec.setAt t.objs s.db.next (some { appId := app, timestamp := ts, loc := loc, obj := obj, validity := validity }) i
           = lookup i (s.db.rows ++ [(s.db.next, { appId := app, timestamp := ts, loc := loc, obj := obj, validity := validity })]) := by
         intro i
         rw [lookup_append_new _ _ _ _ hnm]
         simp only [Spec.setAt, h.objs i]
       split
-      · refine ⟨?_, by simp [Spec.absOut]⟩
-        have hc := collectTrash_eq cfg (nowIts s.utcMs) _ hsafe1
+      · refine ⟨?_, by simp [absOut]⟩
         constructor
         · intro i
-          simp only [hc]
-          rw [lookup_filter _ _ hok1.1, Spec.collect, hobjs1 i]
-          cases lookup i (s.db.rows ++ [(s.db.next, _)]) with
-          | none => rfl
-          | some r => by_cases e : expired (nowIts s.utcMs) r = true <;> simp [e]
+          simp only [agree_nowIts]
+          exact collect_rel cfg _ _ _ _ hok1 hobjs1 i
         · rfl
         · exact h.prov
         · exact h.cons
         · rfl
         · rfl
         · rfl
-        · simp only [hc]; exact idsOk_filter _ _ _ hok1
-        · simp only [hc]; intro p hp'; exact hsafe1 p (List.mem_filter.mp hp').1
-      · refine ⟨?_, by simp [Spec.absOut]⟩
+        · simp only [collectTrash_eq]; exact idsOk_filter _ _ _ hok1
+      · refine ⟨?_, by simp [absOut]⟩
         constructor
         · exact hobjs1
         · rfl
@@ -528,31 +687,28 @@ theorem step_refines (cfg : Cfg) (s : St) (t : Spec.St) (op : Op) (h : Rel cfg s
         · rfl
         · rfl
         · exact hok1
-        · exact hsafe1
     · have hp' : s.providers.contains app = false := by simpa using hp
       simp only [hp', Bool.not_false, if_true]
-      exact ⟨h, by simp [Spec.absOut]⟩
+      exact ⟨h, by simp [absOut]⟩
 
-/-- `opSafe` along a whole history -/
-def histSafe (cfg : Cfg) : St → List Op → Bool
-  | _, [] => true
-  | s, op :: ops => opSafe cfg s op && histSafe cfg (step cfg s op).1 ops
-
-theorem run_refines (cfg : Cfg) (ops : List Op) : ∀ (s : St) (t : Spec.St), Rel cfg s t → histSafe cfg s ops = true →
-    Rel cfg (run cfg s ops).1 (Spec.run t ops).1 ∧
-      List.zipWith Spec.absOut ops (run cfg s ops).2 = (Spec.run t ops).2 := by
+theorem run_refines (cfg : Cfg) (ops : List Op) : ∀ (s : St) (t : Spec.St), Rel s t →
+    Rel (run cfg s ops).1 (Spec.run (specOf cfg) t (ops.map toSpec)).1 ∧
+      List.zipWith absOut ops (run cfg s ops).2 = (Spec.run (specOf cfg) t (ops.map toSpec)).2 := by
   induction ops with
-  | nil => intro s t h _; exact ⟨h, rfl⟩
+  | nil => intro s t h; exact ⟨h, rfl⟩
   | cons op ops ih =>
-    intro s t h hs
-    simp only [histSafe, Bool.and_eq_true] at hs
-    obtain ⟨h1, ho⟩ := step_refines cfg s t op h hs.1
-    obtain ⟨h2, hos⟩ := ih _ _ h1 hs.2
-    simp only [run, Spec.run]
+    intro s t h
+    obtain ⟨h1, ho⟩ := step_refines cfg s t op h
+    obtain ⟨h2, hos⟩ := ih _ _ h1
+    simp only [run, Spec.run, List.map_cons]
     exact ⟨h2, by simp only [List.zipWith_cons_cons, ho, hos]⟩
 
+
+
+/-! ## facts about the reference machine (all parameters arbitrary) used by Props/C12.lean -/
+
 /-- the operation is an update or delete aimed at object `i` -/
-def Op.targets (i : Nat) : Op → Bool
+def Spec.Op.targets (i : Nat) : Spec.Op → Bool
   | .update _ j _ => j == i
   | .delete _ j => j == i
   | _ => false
@@ -560,32 +716,45 @@ def Op.targets (i : Nat) : Op → Bool
 /-- reference-machine invariant: nothing is stored at identifiers not handed out yet -/
 def Spec.Inv (t : Spec.St) : Prop := ∀ j, t.next ≤ j → t.objs j = none
 
-theorem nowIts_mono (a b : Int) (h : a ≤ b) : nowIts a ≤ nowIts b := by
-  unfold nowIts itsEpoch elapsedSeconds
+theorem spec_nowIts_mono (a b : Int) (h : a ≤ b) : Spec.nowIts a ≤ Spec.nowIts b := by
+  unfold Spec.nowIts Spec.itsEpochS Spec.leapS
   omega
 
-theorem expired_mono (a b : Int) (r : Record) (h : a ≤ b) (he : expired a r = true) : expired b r = true := by
-  simp only [expired, decide_eq_true_eq] at *
+theorem lapsed_mono (a b : Int) (r : Record) (h : a ≤ b) (he : Spec.lapsed a r = true) : Spec.lapsed b r = true := by
+  simp only [Spec.lapsed, decide_eq_true_eq] at *
   omega
 
-theorem spec_step_utc_mono (t : Spec.St) (op : Op) : t.utcMs ≤ (Spec.step t op).1.utcMs := by
+/-- validity 0 is not special: such an object has lapsed as soon as the LDM clock is past its timestamp -/
+theorem lapsed_validity_zero (now : Int) (r : Record) (h0 : r.validity = 0) :
+    Spec.lapsed now r = decide (r.timestamp < now) := by
+  simp [Spec.lapsed, h0]
+
+theorem spec_step_utc_mono (P : Spec.Params) (t : Spec.St) (op : Spec.Op) : t.utcMs ≤ (Spec.step P t op).1.utcMs := by
   cases op <;> simp only [Spec.step] <;> (repeat' split) <;> (try simp only []) <;> omega
 
-theorem spec_run_utc_mono (ops : List Op) : ∀ t : Spec.St, t.utcMs ≤ (Spec.run t ops).1.utcMs := by
+theorem spec_run_utc_mono (P : Spec.Params) (ops : List Spec.Op) : ∀ t : Spec.St, t.utcMs ≤ (Spec.run P t ops).1.utcMs := by
   induction ops with
   | nil => intro t; exact Int.le_refl _
   | cons op ops ih =>
     intro t
     simp only [Spec.run]
-    exact Int.le_trans (spec_step_utc_mono t op) (ih _)
+    exact Int.le_trans (spec_step_utc_mono P t op) (ih _)
 
-theorem spec_step_next_mono (t : Spec.St) (op : Op) : t.next ≤ (Spec.step t op).1.next := by
+theorem spec_step_next_mono (P : Spec.Params) (t : Spec.St) (op : Spec.Op) : t.next ≤ (Spec.step P t op).1.next := by
   cases op <;> simp only [Spec.step] <;> (repeat' split) <;> (try simp only []) <;> omega
+
+theorem spec_run_next_mono (P : Spec.Params) (ops : List Spec.Op) : ∀ t : Spec.St, t.next ≤ (Spec.run P t ops).1.next := by
+  induction ops with
+  | nil => intro t; exact Nat.le_refl _
+  | cons op ops ih =>
+    intro t
+    simp only [Spec.run]
+    exact Nat.le_trans (spec_step_next_mono P t op) (ih _)
 
 theorem spec_inv_init (u m : Int) : Spec.Inv (Spec.St.init u m) := by
   intro j _; rfl
 
-theorem spec_inv_step (t : Spec.St) (op : Op) (h : Spec.Inv t) : Spec.Inv (Spec.step t op).1 := by
+theorem spec_inv_step (P : Spec.Params) (t : Spec.St) (op : Spec.Op) (h : Spec.Inv t) : Spec.Inv (Spec.step P t op).1 := by
   cases op with
   | add app ts loc obj validity =>
     simp only [Spec.step]
@@ -640,31 +809,101 @@ theorem spec_inv_step (t : Spec.St) (op : Op) (h : Spec.Inv t) : Spec.Inv (Spec.
   | request q => exact h
   | advance ms => exact h
 
-/-- one step keeps an object that is not targeted and whose validity has not lapsed -/
-theorem spec_step_keeps (t : Spec.St) (op : Op) (i : Nat) (r : Record) (hi : t.objs i = some r) (hlt : i < t.next)
-    (ht : op.targets i = false) (hne : expired (nowIts t.utcMs) r = false) : (Spec.step t op).1.objs i = some r := by
+theorem spec_inv_run (P : Spec.Params) (ops : List Spec.Op) : ∀ t : Spec.St, Spec.Inv t → Spec.Inv (Spec.run P t ops).1 := by
+  induction ops with
+  | nil => intro t h; exact h
+  | cons op ops ih => intro t h; exact ih _ (spec_inv_step P t op h)
+
+theorem mem_listing (t : Spec.St) (r : Record) : r ∈ Spec.listing t ↔ ∃ i, i < t.next ∧ t.objs i = some r := by
+  simp only [Spec.listing, List.mem_filterMap, List.mem_range]
+
+/-! ### what one operation, judged by its ANSWER, does to a stored object -/
+
+/-- the effect an operation with answer `o` has on object `i` holding `r`: a *successful* delete of `i` removes it,
+a *successful* update of `i` replaces its content, anything else (including refused updates / deletes of `i`) nothing -/
+def Spec.effectOn (i : Nat) (r : Record) : Spec.Op → Spec.Out → Option Record
+  | .delete _ j, .done => if j = i then none else some r
+  | .update _ j obj, .done => if j = i then some { r with obj := obj } else some r
+  | _, _ => some r
+
+/-- follow object `i` through a history with its answers -/
+def Spec.follow (i : Nat) : Option Record → List Spec.Op → List Spec.Out → Option Record
+  | none, _, _ => none
+  | some r, op :: ops, o :: os => Spec.follow i (Spec.effectOn i r op o) ops os
+  | some r, _, _ => some r
+
+theorem follow_none (i : Nat) (ops : List Spec.Op) (os : List Spec.Out) : Spec.follow i none ops os = none := by
+  cases ops <;> cases os <;> rfl
+
+theorem effectOn_keeps_meta (i : Nat) (r r' : Record) (op : Spec.Op) (o : Spec.Out) (h : Spec.effectOn i r op o = some r') :
+    r'.appId = r.appId ∧ r'.timestamp = r.timestamp ∧ r'.loc = r.loc ∧ r'.validity = r.validity := by
+  cases op <;> cases o <;> simp only [Spec.effectOn] at h <;> (try split at h) <;>
+    (first | (cases h; exact ⟨rfl, rfl, rfl, rfl⟩) | cases h)
+
+theorem follow_keeps_meta (i : Nat) (ops : List Spec.Op) : ∀ (os : List Spec.Out) (r r' : Record),
+    Spec.follow i (some r) ops os = some r' →
+    r'.appId = r.appId ∧ r'.timestamp = r.timestamp ∧ r'.loc = r.loc ∧ r'.validity = r.validity := by
+  induction ops with
+  | nil => intro os r r' h; simp only [Spec.follow] at h; cases h; exact ⟨rfl, rfl, rfl, rfl⟩
+  | cons op ops ih =>
+    intro os r r' h
+    cases os with
+    | nil => simp only [Spec.follow] at h; cases h; exact ⟨rfl, rfl, rfl, rfl⟩
+    | cons o os =>
+      simp only [Spec.follow] at h
+      cases he : Spec.effectOn i r op o with
+      | none => rw [he, follow_none] at h; cases h
+      | some r1 =>
+        rw [he] at h
+        obtain ⟨a1, a2, a3, a4⟩ := effectOn_keeps_meta i r r1 op o he
+        obtain ⟨b1, b2, b3, b4⟩ := ih os r1 r' h
+        exact ⟨b1.trans a1, b2.trans a2, b3.trans a3, b4.trans a4⟩
+
+/-- one step: a stored object that has not lapsed and that the area rule keeps is afterwards exactly what
+`effectOn` says -/
+theorem spec_step_effect (P : Spec.Params) (t : Spec.St) (op : Spec.Op) (i : Nat) (r : Record)
+    (hi : t.objs i = some r) (hlt : i < t.next)
+    (hne : Spec.lapsed (Spec.nowIts t.utcMs) r = false) (hk : P.drops r.loc = false) :
+    (Spec.step P t op).1.objs i = Spec.effectOn i r op (Spec.step P t op).2 := by
   cases op with
   | add app ts loc obj validity =>
-    simp only [Spec.step]
     have hn : ¬ i = t.next := by omega
+    simp only [Spec.step]
     split
     · exact hi
     · split
-      · simp only [Spec.collect, Spec.setAt, hn, if_false, hi, hne]; rfl
-      · simp only [Spec.setAt, hn, if_false, hi]
+      · simp only [Spec.collect, Spec.setAt, hn, if_false, hi, hne, hk, Spec.effectOn]; rfl
+      · simp only [Spec.setAt, hn, if_false, hi, Spec.effectOn]
   | update app id obj =>
-    simp only [Op.targets, beq_eq_false_iff_ne, ne_eq] at ht
-    have hn : ¬ i = id := fun e => ht e.symm
     simp only [Spec.step]
-    repeat' split
-    all_goals (first | exact hi | simp only [Spec.setAt, hn, if_false, hi])
+    split
+    · exact hi
+    · cases hr : t.objs id with
+      | none => exact hi
+      | some r' =>
+        simp only
+        split
+        · simp only [Spec.effectOn, Spec.setAt]
+          by_cases e : id = i
+          · subst e
+            rw [hi] at hr; cases hr
+            simp
+          · have e' : ¬ i = id := fun x => e x.symm
+            simp [e, e', hi]
+        · exact hi
   | delete app id =>
-    simp only [Op.targets, beq_eq_false_iff_ne, ne_eq] at ht
-    have hn : ¬ i = id := fun e => ht e.symm
     simp only [Spec.step]
-    repeat' split
-    all_goals (first | exact hi | simp only [Spec.setAt, hn, if_false, hi])
-  | maintain => simp only [Spec.step, Spec.collect, hi, hne]; rfl
+    split
+    · exact hi
+    · cases hr : t.objs id with
+      | none => exact hi
+      | some r' =>
+        simp only [Spec.effectOn, Spec.setAt]
+        by_cases e : id = i
+        · subst e; simp
+        · have e' : ¬ i = id := fun x => e x.symm
+          simp [e, e', hi]
+  | maintain => simp only [Spec.step, Spec.collect, hi, hne, hk, Spec.effectOn]; rfl
   | regProvider app perms => simp only [Spec.step]; split <;> exact hi
   | deregProvider app => simp only [Spec.step]; split <;> exact hi
   | regConsumer app perms => simp only [Spec.step]; split <;> exact hi
@@ -672,33 +911,8 @@ theorem spec_step_keeps (t : Spec.St) (op : Op) (i : Nat) (r : Record) (hi : t.o
   | request q => exact hi
   | advance ms => exact hi
 
-/-! ## lemmas about the reference map used by Props/C12.lean -/
-
-theorem mem_listing (t : Spec.St) (r : Record) : r ∈ Spec.listing t ↔ ∃ i, i < t.next ∧ t.objs i = some r := by
-  simp only [Spec.listing, List.mem_filterMap, List.mem_range]
-
-
-theorem run_keeps (ops : List Op) : ∀ (t : Spec.St) (i : Nat) (r : Record), t.objs i = some r → i < t.next →
-    (∀ op ∈ ops, op.targets i = false) → expired (nowIts (Spec.run t ops).1.utcMs) r = false →
-    (Spec.run t ops).1.objs i = some r := by
-  induction ops with
-  | nil => intro t i r hi _ _ _; exact hi
-  | cons op ops ih =>
-    intro t i r hi hlt hnt hne
-    simp only [Spec.run] at hne ⊢
-    have hnow : expired (nowIts t.utcMs) r = false := by
-      cases hx : expired (nowIts t.utcMs) r with
-      | false => rfl
-      | true =>
-        have hmono := Int.le_trans (spec_step_utc_mono t op) (spec_run_utc_mono ops (Spec.step t op).1)
-        rw [expired_mono _ _ r (nowIts_mono _ _ hmono) hx] at hne
-        cases hne
-    exact ih _ i r (spec_step_keeps t op i r hi hlt (hnt op (by simp)) hnow)
-      (Nat.lt_of_lt_of_le hlt (spec_step_next_mono t op)) (fun o ho => hnt o (List.mem_cons_of_mem _ ho)) hne
-
-
-theorem none_stays_step (t : Spec.St) (op : Op) (i : Nat) (hi : t.objs i = none) (hlt : i < t.next) :
-    (Spec.step t op).1.objs i = none := by
+theorem none_stays_step (P : Spec.Params) (t : Spec.St) (op : Spec.Op) (i : Nat) (hi : t.objs i = none) (hlt : i < t.next) :
+    (Spec.step P t op).1.objs i = none := by
   cases op with
   | add app ts loc obj validity =>
     have hn : ¬ i = t.next := by omega
@@ -731,26 +945,61 @@ theorem none_stays_step (t : Spec.St) (op : Op) (i : Nat) (hi : t.objs i = none)
   | advance ms => exact hi
 
 /-- an identifier that was handed out and holds nothing never holds anything again (identifiers are not reused) -/
-theorem none_stays (ops : List Op) : ∀ (t : Spec.St) (i : Nat), t.objs i = none → i < t.next →
-    (Spec.run t ops).1.objs i = none := by
+theorem none_stays (P : Spec.Params) (ops : List Spec.Op) : ∀ (t : Spec.St) (i : Nat), t.objs i = none → i < t.next →
+    (Spec.run P t ops).1.objs i = none := by
   induction ops with
   | nil => intro t i hi _; exact hi
   | cons op ops ih =>
     intro t i hi hlt
-    exact ih _ i (none_stays_step t op i hi hlt) (Nat.lt_of_lt_of_le hlt (spec_step_next_mono t op))
+    exact ih _ i (none_stays_step P t op i hi hlt) (Nat.lt_of_lt_of_le hlt (spec_step_next_mono P t op))
 
+/-- **a whole history**: an object the area rule keeps and whose validity has not lapsed at the end of the history is
+at the end exactly what following the ANSWERS says: removed by a successful delete aimed at it, content replaced by
+every successful update aimed at it, untouched by everything else (refused updates / deletes of it included) -/
+theorem run_follows (P : Spec.Params) (ops : List Spec.Op) : ∀ (t : Spec.St) (i : Nat) (r : Record),
+    t.objs i = some r → i < t.next → P.drops r.loc = false →
+    Spec.lapsed (Spec.nowIts (Spec.run P t ops).1.utcMs) r = false →
+    (Spec.run P t ops).1.objs i = Spec.follow i (some r) ops (Spec.run P t ops).2 := by
+  induction ops with
+  | nil => intro t i r hi _ _ _; exact hi
+  | cons op ops ih =>
+    intro t i r hi hlt hk hne
+    simp only [Spec.run] at hne ⊢
+    have hnow : Spec.lapsed (Spec.nowIts t.utcMs) r = false := by
+      cases hx : Spec.lapsed (Spec.nowIts t.utcMs) r with
+      | false => rfl
+      | true =>
+        have hmono := Int.le_trans (spec_step_utc_mono P t op) (spec_run_utc_mono P ops (Spec.step P t op).1)
+        rw [lapsed_mono _ _ r (spec_nowIts_mono _ _ hmono) hx] at hne
+        cases hne
+    have h1 := spec_step_effect P t op i r hi hlt hnow hk
+    have hlt1 := Nat.lt_of_lt_of_le hlt (spec_step_next_mono P t op)
+    simp only [Spec.follow]
+    cases he : Spec.effectOn i r op (Spec.step P t op).2 with
+    | none =>
+      rw [he] at h1
+      rw [follow_none]
+      exact none_stays P ops _ i h1 hlt1
+    | some r' =>
+      rw [he] at h1
+      obtain ⟨_, hts, hloc, hval⟩ := effectOn_keeps_meta i r r' op _ he
+      apply ih _ i r' h1 hlt1 (by rw [hloc]; exact hk)
+      simp only [Spec.lapsed, hts, hval] at hne ⊢
+      exact hne
 
-theorem id_out (t : Spec.St) (op : Op) (k : Nat) (h : (Spec.step t op).2 = .id k) :
-    k = t.next ∧ (Spec.step t op).1.next = t.next + 1 := by
+theorem id_out (P : Spec.Params) (t : Spec.St) (op : Spec.Op) (k : Nat) (h : (Spec.step P t op).2 = .id k) :
+    k = t.next ∧ (Spec.step P t op).1.next = t.next + 1 := by
   cases op with
   | add app ts loc obj validity =>
     cases hp : t.prov app with
     | false => simp [Spec.step, hp] at h
     | true =>
-      by_cases hg : t.monoMs - t.lastGc ≥ trashIntervalMs
-      · simp only [Spec.step, hp, hg, Bool.not_true, Bool.false_eq_true, if_false, if_true] at h ⊢
+      cases hg : P.reactive (t.monoMs - t.lastGc) with
+      | true =>
+        simp only [Spec.step, hp, hg, Bool.not_true, Bool.false_eq_true, if_false, if_true] at h ⊢
         injection h with h; exact ⟨h.symm, trivial⟩
-      · simp only [Spec.step, hp, hg, Bool.not_true, Bool.false_eq_true, if_false] at h ⊢
+      | false =>
+        simp only [Spec.step, hp, hg, Bool.not_true, Bool.false_eq_true, if_false] at h ⊢
         injection h with h; exact ⟨h.symm, trivial⟩
   | update app id obj =>
     exfalso
@@ -774,5 +1023,82 @@ theorem id_out (t : Spec.St) (op : Op) (k : Nat) (h : (Spec.step t op).2 = .id k
   | maintain => simp only [Spec.step] at h; cases h
   | advance ms => simp only [Spec.step] at h; cases h
 
+/-! ## helpers for the implementation-level corollaries of Props/C12.lean -/
+
+/-- identifiers handed out by the accepted adds of a history -/
+def handedOut : List Spec.Out → List Nat
+  | [] => []
+  | .id n :: t => n :: handedOut t
+  | _ :: t => handedOut t
+
+theorem handedOut_ge (P : Spec.Params) (ops : List Spec.Op) :
+    ∀ (t : Spec.St), ∀ n ∈ handedOut (Spec.run P t ops).2, t.next ≤ n := by
+  induction ops with
+  | nil => intro t n h; simp [Spec.run, handedOut] at h
+  | cons op ops ih =>
+    intro t n h
+    simp only [Spec.run] at h
+    have hmono := spec_step_next_mono P t op
+    have hrest : ∀ k ∈ handedOut (Spec.run P (Spec.step P t op).1 ops).2, t.next ≤ k :=
+      fun k hk => Nat.le_trans hmono (ih _ k hk)
+    cases hop : (Spec.step P t op).2 with
+    | id k =>
+      rw [hop] at h
+      simp only [handedOut, List.mem_cons] at h
+      rcases h with h | h
+      · subst h
+        have := (id_out P t op n hop).1
+        omega
+      · exact hrest n h
+    | _ => rw [hop] at h; exact hrest n h
+
+/-- states of the implementation model reachable by some history from some start clocks -/
+def Reach (cfg : Cfg) (s : St) : Prop := ∃ u m ops, s = (run cfg (St.init u m) ops).1
+
+theorem reach_rel (cfg : Cfg) (s : St) (h : Reach cfg s) : ∃ t, Rel s t ∧ Spec.Inv t := by
+  obtain ⟨u, m, ops, rfl⟩ := h
+  exact ⟨_, (run_refines cfg ops _ _ (rel_init u m)).1, spec_inv_run _ _ _ (spec_inv_init u m)⟩
+
+theorem run_append (cfg : Cfg) (a b : List Op) : ∀ s : St,
+    run cfg s (a ++ b) = ((run cfg (run cfg s a).1 b).1, (run cfg s a).2 ++ (run cfg (run cfg s a).1 b).2) := by
+  induction a with
+  | nil => intro s; rfl
+  | cons op a ih => intro s; simp only [List.cons_append, run, ih]
+
+theorem reach_step (cfg : Cfg) (s : St) (op : Op) (h : Reach cfg s) : Reach cfg (step cfg s op).1 := by
+  obtain ⟨u, m, ops, rfl⟩ := h
+  exact ⟨u, m, ops ++ [op], by rw [run_append]; rfl⟩
+
+theorem reach_run (cfg : Cfg) (ops : List Op) : ∀ s, Reach cfg s → Reach cfg (run cfg s ops).1 := by
+  induction ops with
+  | nil => intro s h; exact h
+  | cons op ops ih => intro s h; exact ih _ (reach_step cfg s op h)
+
+theorem run_length (cfg : Cfg) (ops : List Op) : ∀ s : St, (run cfg s ops).2.length = ops.length := by
+  induction ops with
+  | nil => intro s; rfl
+  | cons op ops ih => intro s; simp only [run, List.length_cons, ih]
+
+theorem absOut_add_id (app : Nat) (ts : Int) (loc : Loc) (obj : JVal) (v : Int) (o : Out) (i : Nat)
+    (h : absOut (.add app ts loc obj v) o = .id i) : o = .code i := by
+  cases o with
+  | code n =>
+    simp only [absOut] at h
+    split at h
+    · cases h
+    · injection h with h
+      congr 1
+      omega
+  | req r => simp [absOut] at h
+  | exc e => simp [absOut] at h
+  | none => simp [absOut] at h
+
+theorem absOut_request_ok (q : Request) (o : Out) (rs : List Record)
+    (h : absOut (.request q) o = .req (.ok rs)) : o = .req (.ok rs) := by
+  cases o with
+  | code n => simp only [absOut] at h; split at h <;> cases h
+  | req r => simp only [absOut] at h; injection h with h; rw [h]
+  | exc e => simp [absOut] at h
+  | none => simp [absOut] at h
 
 end FlexModel.Ldm
